@@ -3,3 +3,4 @@ import Props.C02
 import Props.C04
 import Props.C06
 import Props.C07
+import Props.C03
